@@ -141,6 +141,7 @@ type item struct {
 	delayNs int64
 	when    string // special instant class (far future / far past / representation of an ordinary instant)
 	far     int    // +1: scheduled more than an hour after the Add (not due within any run), -1: more than an hour before, 0: ordinary
+	bornDue bool   // the scheduled instant had already passed when Add / ExecuteAt / ExecuteAfter was called: no clock can make it wait
 
 	schedCall, schedRet atomic.Uint64
 	accepted            atomic.Bool
@@ -228,6 +229,7 @@ type run struct {
 	guarded      bool
 	deadCandSeen atomic.Bool // set by the monitor of a random run
 	holders      int         // workers still holding a (far-future) element inside Poll at quiescence
+	shapes       []string    // idle-burst runs: shape of the schedule (distinct-class evidence)
 }
 
 func newRun(sp spec) *run {
@@ -427,6 +429,7 @@ func (r *run) schedule(it *item) {
 	case it.sched.Before(now.Add(-time.Hour)):
 		it.far = -1
 	}
+	it.bornDue = it.sched.Before(now) && (!after || delay < 0)
 	it.schedCall.Store(tick())
 	func() {
 		defer func() {
@@ -737,7 +740,8 @@ func (r *run) observe() obs {
 	// deliveries, callers, Shutdown) while no element is legitimately waiting for a due time within the next hour.
 	started := 0
 	timerPending := false
-	now, soon := time.Now(), time.Now().Add(time.Hour)
+	// (elements scheduled half an hour or more ahead cannot end any wait of a run: they do not keep the bound from counting)
+	now, soon := time.Now(), time.Now().Add(30*time.Minute)
 	for _, it := range its {
 		if it == nil || it.schedRet.Load() == 0 {
 			continue
@@ -839,20 +843,45 @@ func (r *run) waitStarted(it *item) bool {
 }
 
 // waitHeld waits until some worker holds an element inside Poll (parked in select) and the heap is empty.
+// false = structurally impossible: every worker is parked and none of them below Poll in a timer-capable wait, or the same
+// picture (every worker parked, same goroutine states, same Size() > 0, nothing delivered) is seen in consecutive snapshots -
+// a worker that was woken for the elements left in the heap would be runnable, so nobody is going to take them.
 func (r *run) waitHeld() bool {
+	last, same := "", 0
 	for i := 0; ; i++ {
 		o := r.observe()
 		r.checkDead(o)
 		if o.allParked() {
-			if o.pollSelect >= 1 && r.size() == 0 {
+			sz := r.size()
+			if o.pollSelect >= 1 && sz == 0 {
 				return true
 			}
 			if o.pollSelect == 0 {
 				return false
 			}
+			if key := fmt.Sprintf("%s|%d|%d", o.sig, sz, r.startedCount()); key == last {
+				if same++; same >= 3 {
+					r.patterns["elements-left-in-heap-while-workers-parked"] = true
+					return false
+				}
+			} else {
+				last, same = key, 0
+			}
+		} else {
+			last, same = "", 0
 		}
 		pace(i)
 	}
+}
+
+func (r *run) startedCount() int {
+	n := 0
+	for _, it := range r.allItems() {
+		if it != nil && it.starts.Load() > 0 {
+			n++
+		}
+	}
+	return n
 }
 
 // finish waits for structural quiescence after Shutdown and evaluates the history.
@@ -869,6 +898,7 @@ func (r *run) finish() {
 			break
 		}
 		if r.stallN > stallLimit || r.gaveUp != "" { // nothing has changed for stallLimit consecutive snapshots and no rule applies: give this case up
+			r.judgeStalled(o)
 			if r.gaveUp == "" {
 				r.gaveUp = fmt.Sprintf("quiescence could not be established within the logical bound (clients=%d shutdown=%d workers=%d idle=%d waiting-under-Poll=%d in-callback=%d lock-waits=%d); last picture %s", o.clients, o.shutdown, o.nWorkers, o.pollCond, o.pollSelect, o.inCallback, o.mutexAdd+o.mutexPoll+o.mutexOther, r.stallKey)
 			}
